@@ -25,6 +25,10 @@ func wireStructs(p *Prog) map[*types.Struct]bool {
 	return out
 }
 
+// optional hooks for a package-specific census (set and reset by the caller)
+var censusSkip func(ssa.Instruction) bool
+var censusRange func(ssa.Value) (int, int, bool)
+
 func panicCensus(r *Run, p *Prog, T *Terms, rule string, fns map[*ssa.Function]bool) int {
 	n := 0
 	wires := wireStructs(p)
@@ -38,6 +42,9 @@ func panicCensus(r *Run, p *Prog, T *Terms, rule string, fns map[*ssa.Function]b
 				continue
 			}
 			for _, in := range b.Instrs {
+				if censusSkip != nil && censusSkip(in) {
+					continue
+				}
 				switch x := in.(type) {
 				case *ssa.Slice:
 					if x.Low == nil && x.High == nil && x.Max == nil {
